@@ -60,7 +60,7 @@ def floors(tier):
     cl.update({f"budget:{v}": 15 * k for v in KINDS.values()})
     cl.update({"budget:pair": 6 * k, "stopped-by:maximum_iterations": 8 * k, "stopped-by:maximum_test_executions": 8 * k,
                "stopped-by:maximum_statement_executions": 8 * k, "iteration-boundary-checked": 150 * k,
-               "crossed-within-iteration": 3 * k})
+               "crossed-within-iteration": 3 * k, "run:with-timed-out-executions": 3})
     for a in ALGOS:
         cl[f"bound:{a}"] = 3 * k
     return {"evals": 60 * k, "distinct": 40 * k, "classes": cl}
@@ -99,6 +99,14 @@ def _directed_runs():
     ]
     for j, (algo, budget) in enumerate(pairs):
         runs.append({"algo": algo, "sut": SUTS[j % len(SUTS)], "seed": 200 + j, "budget": budget})
+    # executions that run into the per-test timeout (the SUT blocks): they count against the execution budget like any other
+    short = {"stopping.maximum_test_execution_timeout": 1, "stopping.test_execution_time_per_statement": 1}
+    for j, (algo, budget) in enumerate([
+        ("DYNAMOSA", {"maximum_test_executions": 14}), ("MIO", {"maximum_test_executions": 9}), ("RANDOM", {"maximum_test_executions": 7}),
+        ("WHOLE_SUITE", {"maximum_test_executions": 16}), ("MOSA", {"maximum_test_executions": 12, "maximum_iterations": 6}),
+        ("RANDOM_TEST_CASE_SEARCH", {"maximum_test_executions": 8}),
+    ]):
+        runs.append({"algo": algo, "sut": "sleepy", "seed": 300 + j, "budget": budget, "population": 4, "config": short})
     return runs
 
 
@@ -152,6 +160,7 @@ def run_one(ctx, run, idx, proj, env_extra=None):
     }
     if "population" in run:
         spec["config"]["search_algorithm.population"] = run["population"]
+    spec["config"].update(run.get("config") or {})
     tag = f"{run['algo']}:{run['sut']}:seed={run['seed']}:{run['budget']}"
     res = run_pipeline(spec, timeout=420, env_extra=env_extra)
     if res.get("timeout"):
@@ -197,6 +206,8 @@ def run_one(ctx, run, idx, proj, env_extra=None):
         cls.append("crossed-within-iteration")
     if facts["iterations"] == 0:
         cls.append("zero-iterations")
+    if (bl.get("counters") or {}).get("timeouts", 0) > 0:
+        cls.append("run:with-timed-out-executions")
     ctx.ok(cls=cls, distinct=run if bound else None)
     ctx.cls("iteration-boundary-checked", facts["iterations_started"] + facts["rl_false"])
     ctx.count("iterations_observed", facts["iterations"])
@@ -208,7 +219,7 @@ def run_one(ctx, run, idx, proj, env_extra=None):
 def run_chunk(spec, ctx):
     from vlib import sut_corpus
 
-    proj = sut_corpus.copy_to(ctx.scratch / "proj", SUTS)
+    proj = sut_corpus.copy_to(ctx.scratch / "proj", SUTS + ["sleepy"])
     env_extra = {"VERIF_BREAK": spec["seeded_break"]} if spec.get("seeded_break") else None
     for i, run in enumerate(spec["runs"]):
         run_one(ctx, run, i, proj, env_extra)
@@ -221,5 +232,5 @@ def run_chunk(spec, ctx):
 def replay(w, ctx):
     from vlib import sut_corpus
 
-    proj = sut_corpus.copy_to(ctx.scratch / "proj", SUTS)
+    proj = sut_corpus.copy_to(ctx.scratch / "proj", SUTS + ["sleepy"])
     run_one(ctx, w["case"]["run"], 0, proj)
